@@ -67,7 +67,7 @@ def main():
         else: na.append({"property_id": pid, "reason": PENDING.get(pid, "simulation check not built yet (claimed in DESIGN.md, world under construction)")})
     m = {
         "version": 1,
-        "setup_cmd": "cd /verif/sim && CARGO_NET_OFFLINE=true cargo build --release --offline",
+        "setup_cmd": "cd /verif/sim && CARGO_NET_OFFLINE=true cargo build --release --offline && CARGO_NET_OFFLINE=true cargo build --profile shipped --offline",
         "hooks": {
             "guard": "--cfg rsdd_verif",
             "enable": "RUSTFLAGS='--cfg rsdd_verif' (set in /verif/sim/.cargo/config.toml; /verif/sim links /repo as a path dependency and rebuilds it on every check)",
